@@ -1,7 +1,7 @@
 (* Extract.v — OCaml extraction of the executable model (ExtrOcamlBasic only: bool, option, list,
    prod, unit, sumbool map to OCaml's; N, positive, nat stay the extracted inductive types). *)
 From Coq Require Extraction ExtrOcamlBasic.
-From CsModel Require Import Base Green Builder BuilderSpec BuilderProofs Interner Red Nav GreenEq Replace TokenText Preorder Fmt Serde Derive AutoTrait TextView Conc Extracted.
+From CsModel Require Import Base Green Builder BuilderSpec BuilderProofs Interner Red Nav GreenEq Replace TokenText Preorder Fmt Serde Derive AutoTrait TextView Conc Handles Extracted.
 Extraction Language OCaml.
 Extraction "model.ml"
   utf8_width byte_len text_eqb
@@ -12,13 +12,14 @@ Extraction "model.ml"
   ser_events ser_data deser_tree attach serde_token_text_ty
   is_send is_sync constructible node_send_bounds node_sync_bounds ctor_resolver_bounds green_token_unconditional
   Derive.expand from_raw into_raw static_text_of
-  tok_ranges chunks v_len v_is_empty v_to_string v_contains v_find v_char_at v_slice v_eq_str v_eq_view
+  tok_ranges chunks v_len v_is_empty v_to_string v_contains v_find v_char_at v_slice v_slice_opt v_eq_str v_eq_view
   cinit crun all_done block_of off_of
+  hinit hstep hrun_ops hdrop_all
   text_eq text_eq_old
   nav_exec nav_run
   subr offset_of len_at is_node_at kids parent_of ancestors
   first_child_gen last_child_gen next_child_after_gen prev_child_before_gen next_sibling_gen prev_sibling_gen
   iter_new elem_iter_next node_iter_next elem_iter_len node_iter_len children_nodes children_elems
   first_token last_token next_token prev_token preorder descendants siblings
-  token_at_offset covering_element end_of start_of
+  token_at_offset tao_left tao_right tao_drain covering_element end_of start_of
   geq tok_text denote gtext empty_cache new_builder b_run b_finish build green_node_new.
